@@ -143,6 +143,8 @@ def make_rough_component(rng, nx, na, ny, levels, kpl):
     xs = []
     for k in range(nx):
         lo = rng.choice([-1.0, 0.0, 2.0]); hi = lo + rng.choice([1.0, 2.0])
+        if rng.random() < 0.15:      # an un-normalised input far from the origin relative to its width (node matching must be exact, not "close")
+            lo = 1048576.0; hi = lo + 1.0
         xs.append(Variable(f'x{k}', distribution=f'U({lo}, {hi})'))
     ys = [Variable(f'y{j}') for j in range(ny)]
     fns = [rough_fn({'c0': rng.randint(-2, 2) / 2, 't': [(rng.randint(-3, 3) / 2, rng.random(), rng.randint(-2, 2) / 4) for _ in range(nx)],
